@@ -45,6 +45,8 @@ def ty_str(t):
         return '(list num)'
     if t[0] == 'rec':
         return t[1]
+    if t[0] == 'prod':
+        return '(%s)' % ' * '.join(ty_str(x) for x in t[1])
     if t[0] == 'fun':
         r = ty_str(t[2])
         if t[3]:
@@ -63,6 +65,23 @@ class Tr:
         self.lifted = []
         self.nloops = 0
         self.ret = spec['ret']
+        self.OBJ = spec.get('obj_type', 'obj')          # Coq type of an object reference
+        self.GET = spec.get('heap_get', 'get')          # heap accessors
+        self.UPD = spec.get('heap_upd', 'upd')
+
+    def state_names(self):
+        st = self.spec.get('state')
+        if not st:
+            return []
+        return [st] if isinstance(st, str) else list(st)
+
+    def state_value(self, env):
+        names = self.state_names()
+        vals = [env[n][0] for n in names]
+        return vals[0] if len(vals) == 1 else '(%s)' % ', '.join(vals)
+
+    def state_pattern(self, fresh_names):
+        return fresh_names[0] if len(fresh_names) == 1 else '(%s)' % ', '.join(fresh_names)
 
     def H(self, env):
         """the Coq name of the heap as it is now (a state variable in functions that write the heap)"""
@@ -71,6 +90,8 @@ class Tr:
 
     def fill(self, text, env):
         """placeholders of spec texts: $H the current heap, $F the fuel left for calls of recursive functions"""
+        import re as _re
+        text = _re.sub(r'\$\{(\w+)\}', lambda m: env[m.group(1)][0], text)
         return text.replace('$H', self.H(env) or '').replace('$F', self.rec_fuel or self.spec.get('fuel_name', 'fuel'))
 
     def fresh(self, base):
@@ -93,6 +114,19 @@ class Tr:
             return 'None'
         if t == 'emptylist' and isinstance(want, tuple) and want[0] == 'list':
             return '[]'
+        if isinstance(want, tuple) and want[0] == 'tasklike':
+            # a parameter that goes through _to_list: a task, None, or a list of tasks / None entries
+            loo = ('list', ('option', 'obj'))
+            if t == 'obj':
+                return '[Some %s]' % atom
+            if t == ('option', 'obj'):
+                return '[%s]' % atom
+            if t == 'none':
+                return '[]'
+            return self.coerce(atom, t, loo, where)
+        if isinstance(want, tuple) and want[0] == 'list' and isinstance(want[1], tuple) and want[1][0] == 'option' \
+                and isinstance(t, tuple) and t[0] == 'list' and t[1] == want[1][1]:
+            return '(map Some %s)' % atom
         if isinstance(want, tuple) and want[0] == 'option' and t != 'none':
             return '(Some %s)' % self.coerce(atom, t, want[1], where)
         raise Unsupported('cannot use a %s where a %s is expected %s' % (ty_str(t) if t not in ('intlit', 'none') else t,
@@ -101,6 +135,21 @@ class Tr:
     # ---- expressions (CPS: k(atom, type) -> coq text of type res RET) ------------------------------------
     def expr(self, e, env, k):
         sp = self.spec
+        if sp.get('expr_rewrites') and not isinstance(e, (ast.Constant, ast.Name)):
+            # expressions whose meaning the spec gives outright (each one a stated convention): `text`: (coq template, type)
+            txt = ast.unparse(e)
+            if txt in sp['expr_rewrites']:
+                tmpl, t = sp['expr_rewrites'][txt]
+                return k(self.fill(tmpl, env), t)
+        if isinstance(e, ast.BoolOp) and isinstance(e.op, ast.Or) and len(e.values) == 2 and sp.get('or_default'):
+            # `x or d` with x an Optional datetime (never falsy when present): x if it is there, else d
+            def with_first(a, ta):
+                if ta != ('option', 'Z'):
+                    raise Unsupported('`or` on a %s' % (ta,))
+                v = self.fresh('v')
+                return '(match %s with Some %s => %s | None => %s end)' % (
+                    a, v, k(v, 'Z'), self.expr(e.values[1], env, lambda b, tb: k(self.coerce(b, tb, 'Z'), 'Z')))
+            return self.expr(e.values[0], env, with_first)
         if isinstance(e, ast.Constant):
             if e.value is None:
                 return k('None', 'none')
@@ -129,19 +178,28 @@ class Tr:
                 fn, t, eff = sp['obj_props'][e.attr]
 
                 def prop_read(a, ta):
-                    if ta != 'obj':
+                    if ta != self.OBJ:
                         raise Unsupported('property %s of a %s' % (path, ty_str(ta) if ta not in ('intlit', 'none') else ta))
-                    return self._apply(self.fill(fn, env), [a], ('fun', ['obj'], t, eff), k)
+                    return self._apply(self.fill(fn, env), [a], ('fun', [self.OBJ], t, eff), k)
                 return self.expr(e.value, env, prop_read)
+            if e.attr in sp.get('static_attrs', {}):
+                # attribute that the function never writes: read from the static description of the objects
+                fn, t = sp['static_attrs'][e.attr]
+
+                def static_read(a, ta):
+                    if ta != self.OBJ:
+                        raise Unsupported('attribute %s of a %s' % (path, ta))
+                    return k(self.fill(fn, env) % a, t)
+                return self.expr(e.value, env, static_read)
             # attribute of a heap object: read from the heap parameter of the spec
             if e.attr in sp.get('obj_attrs', {}):
                 fn, t = sp['obj_attrs'][e.attr]
                 hv = self.H(env)
 
                 def heap_read(a, ta):
-                    if ta != 'obj':
+                    if ta != self.OBJ:
                         raise Unsupported('attribute %s of a %s' % (path, ty_str(ta) if ta not in ('intlit', 'none') else ta))
-                    return k('(%s (get %s %s))' % (fn, hv, a), t)
+                    return k('(%s (%s %s %s))' % (fn, self.GET, hv, a), t)
                 return self.expr(e.value, env, heap_read)
             # attribute of a record value
             if e.attr in sp.get('attrs', {}):
@@ -151,6 +209,12 @@ class Tr:
         if isinstance(e, ast.UnaryOp) and isinstance(e.op, ast.USub) and isinstance(e.operand, ast.Constant) \
                 and isinstance(e.operand.value, int):
             return k(str(-e.operand.value), 'intlit')
+        if isinstance(e, ast.UnaryOp) and isinstance(e.op, ast.USub):
+            def neg(a, ta):
+                if ta != 'Z':
+                    raise Unsupported('unary minus on a %s' % (ta,))
+                return k('(- %s)' % a, 'Z')
+            return self.expr(e.operand, env, neg)
         if isinstance(e, ast.BinOp):
             return self.expr(e.left, env, lambda a, ta: self.expr(e.right, env, lambda b, tb: self.binop(e.op, a, ta, b, tb, k)))
         if isinstance(e, ast.IfExp):
@@ -172,6 +236,11 @@ class Tr:
                 return self.expr(e.elts[0], env, lambda a, ta: k('[%s]' % a, ('list', ta)))
             raise Unsupported('list literal with %d elements' % len(e.elts))
         if isinstance(e, (ast.Compare, ast.BoolOp)) or (isinstance(e, ast.UnaryOp) and isinstance(e.op, ast.Not)):
+            if sp.get('pure_conditions'):
+                try:
+                    return k(self.pure_bool(e, env), 'bool')        # a condition used as a value: one boolean expression
+                except Unsupported:
+                    pass
             return self.cond(e, env, lambda env1: k('true', 'bool'), lambda env2: k('false', 'bool'))
         raise Unsupported('expression %s' % ast.dump(e)[:80])
 
@@ -182,7 +251,16 @@ class Tr:
 
     def binop(self, op, a, ta, b, tb, k):
         o = self.ops
+        if self.spec.get('none_arith') and (ta == ('option', 'Z') or tb == ('option', 'Z')):
+            # None in arithmetic raises TypeError
+            if ta == ('option', 'Z'):
+                v = self.fresh('v')
+                return '(match %s with None => Crash TypeError | Some %s => %s end)' % (a, v, self.binop(op, v, 'Z', b, tb, k))
+            v = self.fresh('v')
+            return '(match %s with None => Crash TypeError | Some %s => %s end)' % (b, v, self.binop(op, a, ta, v, 'Z', k))
         if isinstance(ta, tuple) and ta[0] == 'list' and isinstance(op, ast.Add):
+            if isinstance(tb, tuple) and tb[0] == 'list' and tb[1] == ('option', ta[1]):
+                return k('(%s ++ %s)' % (self.coerce(a, ta, tb), b), tb)        # tasks + [maybe a task]
             return k('(%s ++ %s)' % (a, self.coerce(b, tb, ta)), ta)
         if 'num' in (ta, tb):
             a2 = self.coerce(a, ta, 'num', 'in arithmetic')
@@ -216,6 +294,10 @@ class Tr:
             v = self.fresh('v')
             return '(match assoc_get %s %s %s with Some %s => %s | None => Crash KeyError end)' % (
                 self.eqb(td[1]), d, self.coerce(i, ti, td[1]), v, k(v, td[2]))
+        if isinstance(td, tuple) and td[0] == 'list' and ti in ('Z', 'intlit') and 'list_get' in self.ops:
+            # lst[i] with Python's index rule (negative from the end, IndexError outside)
+            v = self.fresh('elt')
+            return '(do %s <- %s %s %s; %s)' % (v, self.ops['list_get'], d, self.coerce(i, ti, 'Z'), k(v, td[1]))
         raise Unsupported('subscript of a %s' % ty_str(td))
 
     def eqb(self, t):
@@ -247,6 +329,12 @@ class Tr:
         if name == 'id' and len(e.args) == 1 and not e.keywords and self.spec.get('heap'):
             # id(obj): the identity of a heap object is its number
             return self.expr(e.args[0], env, lambda a, ta: k(self.coerce(a, ta, 'obj'), 'obj'))
+        if name == 'reversed' and len(e.args) == 1 and not e.keywords:
+            def rev_(l, tl):
+                if not (isinstance(tl, tuple) and tl[0] == 'list'):
+                    raise Unsupported('reversed of a %s' % (tl,))
+                return k('(rev %s)' % l, tl)
+            return self.expr(e.args[0], env, rev_)
         if name == 'set' and not e.args and not e.keywords:
             return k('[]', 'emptylist')
         if name == 'set' and len(e.args) == 1 and not e.keywords:
@@ -272,11 +360,86 @@ class Tr:
                     return k('(filter (fun x_ => existsb (%s x_) %s) %s)' % (self.eqb(ta[1]), b, a), ta)
                 return self.expr(e.args[0], env, inter2)
             return self.expr(e.func.value, env, inter)
+        if isinstance(e.func, ast.Attribute) and e.func.attr == 'copy' and not e.args and not e.keywords:
+            def copied(l, tl):
+                if not (isinstance(tl, tuple) and tl[0] == 'list'):
+                    raise Unsupported('.copy() of a %s' % (tl,))
+                return k(l, tl)                     # values are immutable here: a copy of a list is the list
+            return self.expr(e.func.value, env, copied)
+        if isinstance(e.func, ast.Attribute) and e.func.attr == 'index' and len(e.args) == 1 and not e.keywords \
+                and 'list_index' in self.ops:
+            def indexed(l, tl):
+                if tl != ('list', 'obj'):
+                    raise Unsupported('.index() on a %s' % (tl,))
+
+                def with_item(x, tx):
+                    v = self.fresh('ix')
+                    if tx == ('option', 'obj'):
+                        # None is never an element of a list of tasks: list.index(None) raises ValueError
+                        y = self.fresh('y')
+                        return '(match %s with None => Crash ValueError | Some %s => (do %s <- %s %s %s; %s) end)' % (
+                            x, y, v, self.ops['list_index'], l, y, k(v, 'Z'))
+                    return '(do %s <- %s %s %s; %s)' % (v, self.ops['list_index'], l, self.coerce(x, tx, 'obj'), k(v, 'Z'))
+                return self.expr(e.args[0], env, with_item)
+            return self.expr(e.func.value, env, indexed)
+        if name == 'next' and len(e.args) == 1 and not e.keywords and isinstance(e.args[0], ast.GeneratorExp):
+            # next(x for x in L if c): the first element of L satisfying c, StopIteration when there is none
+            g = e.args[0]
+            if len(g.generators) != 1 or not isinstance(g.generators[0].target, ast.Name) or len(g.generators[0].ifs) != 1 \
+                    or not (isinstance(g.elt, ast.Name) and g.elt.id == g.generators[0].target.id):
+                raise Unsupported('next(...) of this generator expression')
+            gen = g.generators[0]
+
+            def first(l, tl):
+                if not (isinstance(tl, tuple) and tl[0] == 'list'):
+                    raise Unsupported('next over a %s' % (tl,))
+                x = self.fresh(gen.target.id)
+                env2 = dict(env)
+                env2[gen.target.id] = (x, tl[1])
+                v = self.fresh('found')
+                return '(match find (fun %s => %s) %s with None => Crash StopIteration | Some %s => %s end)' % (
+                    x, self.pure_bool(gen.ifs[0], env2), l, v, k(v, tl[1]))
+            return self.expr(gen.iter, env, first)
         if name in self.spec.get('self_calls', ()):
             # a call of the function being translated: one unit of fuel less
             tf = self.spec['self_type']
             return self.args(list(e.args), tf[1], env, lambda atoms: self._apply(
                 '%s %s %s' % (self.spec['coq_name'], self.rec_fuel, self.H(env)), atoms, tf, k))
+        if name in ('min', 'max') and self.spec.get('z_minmax') and not e.keywords and len(e.args) >= 1:
+            zf = 'Z.' + name
+            if len(e.args) == 1:
+                # max(list): ValueError on an empty list
+                def of_list(l, tl):
+                    if tl != ('list', 'Z'):
+                        raise Unsupported('%s of a %s' % (name, tl))
+                    x, xs = self.fresh('x'), self.fresh('xs')
+                    return '(match %s with [] => Crash ValueError | %s :: %s => %s end)' % (
+                        l, x, xs, k('(fold_left %s %s %s)' % (zf, xs, x), 'Z'))
+                return self.expr(e.args[0], env, of_list)
+
+            def many(i, acc):
+                if i == len(e.args):
+                    out = acc[0]
+                    for nxt_ in acc[1:]:
+                        out = '(%s %s %s)' % (zf, out, nxt_)
+                    return k(out, 'Z')
+
+                def one(a, ta):
+                    if ta == ('option', 'Z'):
+                        v = self.fresh('v')       # comparing None with a value raises TypeError
+                        return '(match %s with None => Crash TypeError | Some %s => %s end)' % (a, v, many(i + 1, acc + [v]))
+                    return many(i + 1, acc + [self.coerce(a, ta, 'Z')])
+                return self.expr(e.args[i], env, one)
+            return many(0, [])
+        if name == 'sum' and len(e.args) == 1 and not e.keywords and 'sum_opts' in self.ops:
+            def summed(l, tl):
+                v = self.fresh('s')
+                if tl == ('list', ('option', 'Z')):
+                    return '(do %s <- %s %s; %s)' % (v, self.ops['sum_opts'], l, k(v, 'Z'))
+                if tl == ('list', 'Z'):
+                    return k('(fold_right Z.add 0 %s)' % l, 'Z')
+                raise Unsupported('sum of a %s' % (tl,))
+            return self.expr(e.args[0], env, summed)
         if name in ('min', 'max') and len(e.args) == 2 and not e.keywords:
             f = self.ops[name]
             return self.expr(e.args[0], env, lambda a, ta: self.expr(e.args[1], env, lambda b, tb: k(
@@ -351,6 +514,13 @@ class Tr:
             x = self.fresh(g.target.id)
             env2 = dict(env)
             env2[g.target.id] = (x, tl[1])
+            if len(g.ifs) == 1 and isinstance(g.ifs[0], ast.Compare) and len(g.ifs[0].ops) == 1 \
+                    and isinstance(g.ifs[0].ops[0], ast.IsNot) and isinstance(g.ifs[0].comparators[0], ast.Constant) \
+                    and g.ifs[0].comparators[0].value is None and ast.unparse(g.ifs[0].left) == ast.unparse(e.elt):
+                # [f(x) for x in L if f(x) is not None]: the values that are there, in order
+                body, tb = self.pure(e.elt, env2)
+                if isinstance(tb, tuple) and tb[0] == 'option':
+                    return k('(somes (map (fun %s => %s) %s))' % (x, body, l), ('list', tb[1]))
             src = l
             for c in g.ifs:
                 src = '(filter (fun %s => %s) %s)' % (x, self.pure_bool(c, env2), src)
@@ -441,6 +611,11 @@ class Tr:
 
     # ---- conditions with narrowing ------------------------------------------------------------------
     def cond(self, e, env, kt, kf):
+        if self.spec.get('expr_rewrites') and ast.unparse(e) in self.spec['expr_rewrites']:
+            tmpl, t = self.spec['expr_rewrites'][ast.unparse(e)]
+            if t != 'bool':
+                raise Unsupported('truth value of a %s' % (t,))
+            return '(if %s then %s else %s)' % (self.fill(tmpl, env), kt(env), kf(env))
         if isinstance(e, ast.BoolOp) and isinstance(e.op, ast.And):
             if len(e.values) == 1:
                 return self.cond(e.values[0], env, kt, kf)
@@ -453,6 +628,12 @@ class Tr:
             return self.cond(e.values[0], env, kt, lambda env2: self.cond(rest, env2, kt, kf))
         if isinstance(e, ast.UnaryOp) and isinstance(e.op, ast.Not):
             return self.cond(e.operand, env, kf, kt)
+        if isinstance(e, ast.Compare) and len(e.ops) == 2 and isinstance(e.comparators[0], ast.Name):
+            # a < b < c  with a plain name in the middle: (a < b) and (b < c)
+            both = ast.BoolOp(op=ast.And(), values=[
+                ast.Compare(left=e.left, ops=[e.ops[0]], comparators=[e.comparators[0]]),
+                ast.Compare(left=e.comparators[0], ops=[e.ops[1]], comparators=[e.comparators[1]])])
+            return self.cond(both, env, kt, kf)
         if isinstance(e, ast.Compare) and len(e.ops) == 1:
             op, l, r = e.ops[0], e.left, e.comparators[0]
             if isinstance(op, (ast.Is, ast.IsNot)) and isinstance(r, ast.Constant) and r.value is None:
@@ -484,7 +665,7 @@ class Tr:
                 if not isinstance(l, ast.Name):
                     env2[('$field', key)] = (v, ta[1])
             elif isinstance(l, ast.Attribute) and isinstance(l.value, ast.Name) and \
-                    (not self.spec.get('state') or self.spec.get('state') == self.spec.get('heap')):
+                    (not self.spec.get('state') or self.spec.get('heap') in self.state_names()):
                 # an attribute of a heap object read twice without a write in between (the heap is read-only here)
                 env2[('$field', key)] = (v, ta[1])
             return '(match %s with None => %s | Some %s => %s end)' % (a, k_none(env), v, k_some(env2))
@@ -501,6 +682,13 @@ class Tr:
             env2[('$sub', ast.unparse(r), ast.unparse(l))] = (v, td[2])
             return '(match assoc_get %s %s %s with Some %s => %s | None => %s end)' % (
                 self.eqb(td[1]), d, self.coerce(i, ti, td[1]), v, k_in(env2), k_out(env))
+        if isinstance(td, tuple) and td[0] == 'list' and ti == ('option', td[1]):
+            # None is never an element of a list of tasks
+            y = self.fresh('y')
+            return '(match %s with None => %s | Some %s => (if existsb (%s %s) %s then %s else %s) end)' % (
+                i, k_out(env), y, self.eqb(td[1]), y, d, k_in(env), k_out(env))
+        if isinstance(td, tuple) and td[0] == 'list' and ti == 'none':
+            return k_out(env)
         if isinstance(td, tuple) and td[0] == 'list':
             return '(if existsb (%s %s) %s then %s else %s)' % (self.eqb(td[1]), self.coerce(i, ti, td[1]), d, k_in(env), k_out(env))
         raise Unsupported('membership in a %s' % ty_str(td))
@@ -516,7 +704,7 @@ class Tr:
     def after_write(self, env, newheap):
         """the environment after the heap changed: what was read from the old heap is forgotten"""
         env2 = {k: v for k, v in env.items() if not (isinstance(k, tuple) and k[0] in ('$field', '$sub'))}
-        env2[self.spec['heap']] = (newheap, 'heap')
+        env2[self.spec['heap']] = (newheap, self.spec.get('heap_type', 'heap'))
         return env2
 
     def heap_write(self, s, env, nxt):
@@ -524,9 +712,62 @@ class Tr:
         the translated methods named in the spec (`method_mutators`); None when `s` is none of them"""
         sp = self.spec
         writes = sp.get('obj_writes', {})
-        if not writes and not sp.get('method_mutators'):
+        if not writes and not sp.get('method_mutators') and not sp.get('prop_setters') and not sp.get('self_mutators'):
             return None
         hname = sp['heap']
+        # `x.prop = e` where prop is a property whose setter is translated: the setter's function, heap in and out
+        if isinstance(s, ast.Assign) and len(s.targets) == 1 and isinstance(s.targets[0], ast.Attribute) \
+                and s.targets[0].attr in sp.get('prop_setters', {}):
+            tgt = s.targets[0]
+            fn, vtype = sp['prop_setters'][tgt.attr]
+
+            def with_target(x, tx):
+                def call_setter(x1):
+                    def with_value(v, tv):
+                        h2 = self.fresh(hname)
+                        return "(do '(%s, _) <- %s %s %s %s; %s)" % (h2, self.fill(fn, env), self.H(env), x1, self.coerce(v, tv, vtype, 'as the assigned value'),
+                                                                     nxt(self.after_write(env, h2)))
+                    return self.expr(s.value, env, with_value)
+                if tx == ('option', 'obj'):
+                    # None.prop = e raises AttributeError
+                    y = self.fresh('recv')
+                    return '(match %s with None => Crash AttributeError | Some %s => %s end)' % (x, y, call_setter(y))
+                if tx != self.OBJ:
+                    raise Unsupported('assignment to %s of a %s' % (ast.unparse(tgt), tx))
+                return call_setter(x)
+            return self.expr(tgt.value, env, with_target)
+        # `self.method(args, kw=...)` where the method of this class is translated (heap in and out)
+        if isinstance(s, ast.Expr) and isinstance(s.value, ast.Call) and isinstance(s.value.func, ast.Attribute) \
+                and isinstance(s.value.func.value, ast.Name) and s.value.func.value.id == 'self' \
+                and s.value.func.attr in sp.get('self_mutators', {}):
+            call = s.value
+            fn, formals = sp['self_mutators'][call.func.attr]
+            given = {}
+            if len(call.args) > len(formals):
+                raise Unsupported('too many arguments in %s' % ast.unparse(call))
+            for (fname, _), a in zip(formals, call.args):
+                given[fname] = a
+            for kw in call.keywords:
+                if kw.arg is None or kw.arg in given or kw.arg not in [f for f, _ in formals]:
+                    raise Unsupported('keyword %s in %s' % (kw.arg, ast.unparse(call)))
+                given[kw.arg] = kw.value
+            exprs = [given.get(fname, ast.Constant(value=None)) for fname, _ in formals]
+
+            def with_all(atoms):
+                h2 = self.fresh(hname)
+                return "(do '(%s, _) <- %s %s; %s)" % (h2, self.fill(fn, env), ' '.join(atoms), nxt(self.after_write(env, h2)))
+            return self.args(exprs, [t for _, t in formals], env, with_all)
+        if isinstance(s, ast.Assign) and len(s.targets) > 1 and all(
+                isinstance(t, ast.Attribute) and t.attr in writes and isinstance(t.value, ast.Name) for t in s.targets):
+            # a.x = a.y = e: e once, then the targets from left to right
+            tmp = '$multi%d' % self.n
+            stmts = [ast.Assign(targets=[t], value=ast.Name(id=tmp, ctx=ast.Load())) for t in s.targets]
+
+            def chain(i, env1):
+                if i == len(stmts):
+                    return nxt(env1)
+                return self.heap_write(stmts[i], env1, lambda env2: chain(i + 1, env2))
+            return self.expr(s.value, env, lambda v, tv: self.bind(tmp, v, tv, env, lambda env1: chain(0, env1)))
         if isinstance(s, ast.Assign) and len(s.targets) == 1 and isinstance(s.targets[0], ast.Attribute) \
                 and s.targets[0].attr in writes:
             tgt = s.targets[0]
@@ -534,13 +775,24 @@ class Tr:
             ftype = sp['obj_attrs'][tgt.attr][1]
 
             def with_obj(x, tx):
-                if tx != 'obj':
+                if tx != self.OBJ:
                     raise Unsupported('assignment to %s of a %s' % (ast.unparse(tgt), tx))
 
                 def with_val(v, tv):
                     h2 = self.fresh(hname)
-                    return '(let %s := upd %s %s (%s %s) in %s)' % (h2, self.H(env), x, setter, self.coerce(v, tv, ftype), nxt(self.after_write(env, h2)))
-                return self.expr(s.value, env, with_val)
+                    env_after = self.after_write(env, h2)
+                    if isinstance(tgt.value, ast.Name) and sp.get('remember_writes') and tv not in ('none', 'intlit', 'emptylist') \
+                            and not v.startswith('('):
+                        # a read of the same attribute of the same name, before anything else is written, sees this value
+                        env_after[('$field', ast.unparse(tgt))] = (v, tv)
+                    return '(let %s := %s %s %s (%s %s) in %s)' % (h2, self.UPD, self.H(env), x, setter, self.coerce(v, tv, ftype), nxt(env_after))
+
+                def named(v, tv):
+                    if v.startswith('(') and sp.get('remember_writes'):
+                        nm = self.fresh('w')
+                        return '(let %s := %s in %s)' % (nm, v, with_val(nm, tv))
+                    return with_val(v, tv)
+                return self.expr(s.value, env, named)
             return self.expr(tgt.value, env, with_obj)
         if isinstance(s, ast.Assign) and len(s.targets) == 1 and isinstance(s.targets[0], ast.Subscript) \
                 and isinstance(s.targets[0].value, ast.Attribute) and s.targets[0].value.attr in writes \
@@ -551,12 +803,12 @@ class Tr:
             ftype = sp['obj_attrs'][fld.attr][1]
 
             def with_obj2(x, tx):
-                if tx != 'obj':
+                if tx != self.OBJ:
                     raise Unsupported('assignment to %s of a %s' % (ast.unparse(fld), tx))
 
                 def with_val2(v, tv):
                     h2 = self.fresh(hname)
-                    return '(let %s := upd %s %s (%s %s) in %s)' % (h2, self.H(env), x, setter, self.coerce(v, tv, ftype), nxt(self.after_write(env, h2)))
+                    return '(let %s := %s %s %s (%s %s) in %s)' % (h2, self.UPD, self.H(env), x, setter, self.coerce(v, tv, ftype), nxt(self.after_write(env, h2)))
                 return self.expr(s.value, env, with_val2)
             return self.expr(fld.value, env, with_obj2)
         if isinstance(s, ast.Expr) and isinstance(s.value, ast.Call) and isinstance(s.value.func, ast.Attribute):
@@ -569,22 +821,43 @@ class Tr:
                 setter = writes[recv.attr]
 
                 def with_owner(x, tx):
-                    if tx != 'obj':
+                    if tx != self.OBJ:
                         raise Unsupported('%s on a %s' % (ast.unparse(call.func), tx))
 
                     def with_elt(y, ty):
                         y2 = self.coerce(y, ty, 'obj')
                         new = '(remove1 %s (%s T_))' % (y2, getter) if meth == 'remove' else '(%s T_ ++ [%s])' % (getter, y2)
                         h2 = self.fresh(hname)
-                        return '(let %s := upd %s %s (fun T_ => %s %s T_) in %s)' % (h2, self.H(env), x, setter, new, nxt(self.after_write(env, h2)))
+                        upd = '(let %s := upd %s %s (fun T_ => %s %s T_) in %s)' % (h2, self.H(env), x, setter, new, nxt(self.after_write(env, h2)))
+                        if meth == 'remove':
+                            # list.remove(y) raises ValueError when y is not in the list
+                            return '(if existsb (Nat.eqb %s) (%s (get %s %s)) then %s else Crash ValueError)' % (y2, getter, self.H(env), x, upd)
+                        return upd
                     return self.expr(call.args[0], env, with_elt)
                 return self.expr(recv.value, env, with_owner)
+            if meth == 'insert' and isinstance(recv, ast.Attribute) and recv.attr in writes \
+                    and len(call.args) == 2 and not call.keywords and 'list_insert' in self.ops:
+                getter = sp['obj_attrs'][recv.attr][0]
+                setter = writes[recv.attr]
+
+                def with_owner_i(x, tx):
+                    if tx != self.OBJ:
+                        raise Unsupported('%s on a %s' % (ast.unparse(call.func), tx))
+
+                    def with_pos(i, ti):
+                        def with_elt_i(y, ty):
+                            h2 = self.fresh(hname)
+                            new = '(%s %s %s (%s T_))' % (self.ops['list_insert'], self.coerce(i, ti, 'Z'), self.coerce(y, ty, 'obj'), getter)
+                            return '(let %s := upd %s %s (fun T_ => %s %s T_) in %s)' % (h2, self.H(env), x, setter, new, nxt(self.after_write(env, h2)))
+                        return self.expr(call.args[1], env, with_elt_i)
+                    return self.expr(call.args[0], env, with_pos)
+                return self.expr(recv.value, env, with_owner_i)
             mm = sp.get('method_mutators', {})
             if meth in mm and not call.keywords:
                 fn, argtypes = mm[meth]
 
                 def with_recv(x, tx):
-                    if tx != 'obj':
+                    if tx != self.OBJ:
                         raise Unsupported('%s on a %s' % (ast.unparse(call.func), tx))
 
                     def with_args(atoms):
@@ -607,22 +880,34 @@ class Tr:
         names = []
         for s in stmts:
             for n in ast.walk(s):
+                if isinstance(n, ast.Call) and ast.unparse(n.func) in self.spec.get('state_calls', {}):
+                    for sn in self.state_names():
+                        if sn not in names:
+                            names.append(sn)
                 m = self.mutator_of(n)
                 if m is not None and m[0] not in names:
                     names.append(m[0])
                 g = self.grows(n)
                 if g is not None and g not in names:
                     names.append(g)
+                if isinstance(n, ast.Expr) and isinstance(n.value, ast.Call) and isinstance(n.value.func, ast.Attribute) \
+                        and n.value.func.attr == 'remove' and isinstance(n.value.func.value, ast.Name) \
+                        and n.value.func.value.id in self.spec.get('locals', {}) and n.value.func.value.id not in names:
+                    names.append(n.value.func.value.id)
                 hn = self.spec.get('heap')
-                if hn and hn not in names and self.spec.get('state') == hn:
+                if hn and hn not in names and hn in self.state_names():
                     if (isinstance(n, ast.Assign) and len(n.targets) == 1 and isinstance(n.targets[0], ast.Attribute)
                             and n.targets[0].attr in self.spec.get('obj_writes', {})) or \
                        (isinstance(n, ast.Assign) and len(n.targets) == 1 and isinstance(n.targets[0], ast.Subscript)
                             and isinstance(n.targets[0].value, ast.Attribute)
                             and n.targets[0].value.attr in self.spec.get('obj_writes', {})) or \
+                       (isinstance(n, ast.Assign) and len(n.targets) == 1 and isinstance(n.targets[0], ast.Attribute)
+                            and n.targets[0].attr in self.spec.get('prop_setters', {})) or \
                        (isinstance(n, ast.Call) and isinstance(n.func, ast.Attribute) and
                             (n.func.attr in self.spec.get('method_mutators', {}) or
-                             (n.func.attr in ('remove', 'append') and isinstance(n.func.value, ast.Attribute)
+                             (isinstance(n.func.value, ast.Name) and n.func.value.id == 'self'
+                              and n.func.attr in self.spec.get('self_mutators', {})) or
+                             (n.func.attr in ('remove', 'append', 'insert') and isinstance(n.func.value, ast.Attribute)
                               and n.func.value.attr in self.spec.get('obj_writes', {})))):
                         names.append(hn)
                 if isinstance(n, (ast.Yield, ast.YieldFrom)) and '$yielded' not in names:
@@ -632,7 +917,8 @@ class Tr:
                     for t in ts:
                         if isinstance(t, ast.Name) and t.id not in names:
                             names.append(t.id)
-                        elif isinstance(t, ast.Attribute) and t.attr in self.spec.get('obj_writes', {}):
+                        elif isinstance(t, ast.Attribute) and (t.attr in self.spec.get('obj_writes', {})
+                                                               or t.attr in self.spec.get('prop_setters', {})):
                             pass
                         elif isinstance(t, ast.Subscript) and isinstance(t.value, ast.Attribute) \
                                 and t.value.attr in self.spec.get('obj_writes', {}):
@@ -644,8 +930,8 @@ class Tr:
     def local_type(self, name):
         if name == '$yielded':
             return self.ret
-        if name == self.spec.get('heap') and self.spec.get('state') == name:
-            return 'heap'
+        if name == self.spec.get('heap') and name in self.state_names():
+            return self.spec.get('heap_type', 'heap')
         t = self.spec.get('locals', {}).get(name)
         if t is None:
             raise Unsupported('loop-carried variable %s has no declared type in the spec' % name)
@@ -665,14 +951,14 @@ class Tr:
         if isinstance(s, ast.FunctionDef) and s.name in self.spec.get('nested_defs', ()):
             return nxt(env)                                  # a nested function: translated on its own (see the spec)
         if isinstance(s, ast.Return):
-            st = self.spec.get('state')
+            st = self.state_names()
 
             def result(a, ta):
                 v = self.coerce(a, ta, self.ret, 'as the result')
-                return 'Ok (%s, %s)' % (env[st][0], v) if st else 'Ok %s' % v
+                return 'Ok (%s, %s)' % (self.state_value(env), v) if st else 'Ok %s' % v
             if s.value is None:
                 if self.ret == 'unit':
-                    return 'Ok (%s, tt)' % env[st][0] if st else 'Ok tt'
+                    return 'Ok (%s, tt)' % self.state_value(env) if st else 'Ok tt'
                 return result('None', 'none')
             return self.expr(s.value, env, result)
         if isinstance(s, ast.Raise):
@@ -691,11 +977,57 @@ class Tr:
         # a call that changes a state object: allowed as a statement, as the whole right-hand side of an assignment or
         # of an augmented assignment (anywhere else the evaluation order would have to be modelled: unsupported)
         val = s.value if isinstance(s, (ast.Assign, ast.AugAssign, ast.Expr, ast.AnnAssign)) else None
+        if isinstance(s, ast.Assign) and val is not None and self.mutator_of(val) is None and self.spec.get('mutators'):
+            inner = [n for n in ast.walk(val) if self.mutator_of(n) is not None]
+            if len(inner) == 1:
+                # f(g(state...), pure...) where the state-changing call is what Python evaluates first: name its result
+                node = val
+                while node is not inner[0]:
+                    if isinstance(node, ast.Call) and isinstance(node.func, ast.Name) and node.args and not node.keywords:
+                        node = node.args[0]
+                    elif isinstance(node, ast.BinOp):
+                        node = node.left
+                    else:
+                        raise Unsupported('a state-changing call that is not evaluated first: %s' % ast.unparse(s))
+                tmpn = 'hoisted%d' % self.n
+                self.spec.setdefault('locals', {})
+
+                import copy
+                inner_text = ast.unparse(inner[0])
+
+                class _Sub(ast.NodeTransformer):
+                    def visit_Call(self_, n):
+                        if ast.unparse(n) == inner_text:
+                            return ast.Name(id=tmpn, ctx=ast.Load())
+                        return self_.generic_visit(n)
+                first = ast.Assign(targets=[ast.Name(id=tmpn, ctx=ast.Store())], value=inner[0])
+                second = ast.Assign(targets=s.targets, value=_Sub().visit(copy.deepcopy(val)))
+                return self.block([first, second] + rest, env, fall, loop)
+        if isinstance(s, ast.Expr) and isinstance(val, ast.Call) and ast.unparse(val.func) in self.spec.get('state_calls', {}):
+            # a call that takes every state variable and gives all of them back (the function itself, or a translated one)
+            fn, idx, types = self.spec['state_calls'][ast.unparse(val.func)]
+            names = self.state_names()
+            if val.keywords:
+                raise Unsupported('keywords in %s' % ast.unparse(val))
+            for pyname, pos in self.spec.get('state_args', {}).get(ast.unparse(val.func), {}).items():
+                # the state variables must be handed over as themselves
+                if not (isinstance(val.args[pos], ast.Name) and val.args[pos].id == pyname):
+                    raise Unsupported('%s: argument %d must be %s' % (ast.unparse(val.func), pos, pyname))
+
+            def after_state_call(atoms):
+                news = [self.fresh(n) for n in names]
+                env2 = {k_: v_ for k_, v_ in env.items() if not (isinstance(k_, tuple) and k_[0] in ('$field', '$sub'))}
+                for n, nn in zip(names, news):
+                    env2[n] = (nn, env[n][1])
+                return "(do '(%s, _) <- %s %s %s; %s)" % (self.state_pattern(news), self.fill(fn, env),
+                                                         ' '.join(env[n][0] for n in names), ' '.join(atoms), nxt(env2))
+            return self.args([val.args[i] for i in idx], types, env, after_state_call)
         mut = self.mutator_of(val) if val is not None else None
         if mut is None and any(self.mutator_of(n) is not None for n in ast.walk(s)) and not isinstance(s, (ast.If, ast.For, ast.While)):
             raise Unsupported('a state-changing call inside a larger expression: %s' % ast.unparse(s))
         if mut is not None:
-            state, fn, argtypes, rt = mut
+            state, fn, argtypes, rt = mut[:4]
+            mut_idx = mut[4] if len(mut) > 4 else None
 
             def after_call(atoms):
                 st2, v = self.fresh(state), self.fresh('r')
@@ -715,11 +1047,32 @@ class Tr:
                     if not isinstance(tgt0, ast.Name):
                         raise Unsupported('assignment form %s' % ast.unparse(s))
                     cont = self.bind(tgt0.id, v, rt, env2, nxt)
-                return "(do '(%s, %s) <- %s %s %s; %s)" % (st2, v, fn, env[state][0], ' '.join(atoms), cont)
-            return self.args(list(val.args), argtypes, env, after_call)
+                return "(do '(%s, %s) <- %s %s %s; %s)" % (st2, v, self.fill(fn, env), env[state][0], ' '.join(atoms), cont)
+            if val.keywords:
+                raise Unsupported('keywords in %s' % ast.unparse(val))
+            chosen = list(val.args) if mut_idx is None else [val.args[i] for i in mut_idx]
+            return self.args(chosen, argtypes, env, after_call)
+        if isinstance(s, ast.AugAssign) and isinstance(s.target, ast.Attribute) and s.target.attr in self.spec.get('obj_writes', {}) \
+                and isinstance(s.target.value, ast.Name):
+            # x.f op= e  is  x.f = x.f op e
+            load = ast.Attribute(value=s.target.value, attr=s.target.attr, ctx=ast.Load())
+            s = ast.Assign(targets=[s.target], value=ast.BinOp(left=load, op=s.op, right=s.value))
         hw = self.heap_write(s, env, nxt)
         if hw is not None:
             return hw
+        if isinstance(s, ast.Expr) and isinstance(s.value, ast.Call) and isinstance(s.value.func, ast.Attribute) \
+                and s.value.func.attr == 'remove' and isinstance(s.value.func.value, ast.Name) \
+                and len(s.value.args) == 1 and not s.value.keywords and s.value.func.value.id in self.spec.get('locals', {}) \
+                and s.value.func.value.id in env:
+            # name.remove(x) on a local list: the first occurrence goes, ValueError when there is none
+            lname = s.value.func.value.id
+            lt = self.local_type(lname)
+
+            def removed(a, ta):
+                a2 = self.coerce(a, ta, lt[1])
+                return '(if existsb (%s %s) %s then %s else Crash ValueError)' % (
+                    self.eqb(lt[1]), a2, env[lname][0], self.bind(lname, '(%s %s %s)' % (self.ops.get('remove1', 'remove1'), a2, env[lname][0]), lt, env, nxt))
+            return self.expr(s.value.args[0], env, removed)
         g = self.grows(s)
         if g is not None:
             t = self.local_type(g)
@@ -997,7 +1350,8 @@ class Tr:
         for path, (sname, cname, t) in sp.get('state_fields', {}).items():
             env[sname] = (cname, t)             # a field of self that this function changes
         if sp.get('state'):
-            self.state_type = env[sp['state']][1]
+            sts = [env[n][1] for n in self.state_names()]
+            self.state_type = sts[0] if len(sts) == 1 else ('prod', sts)
         declared = [a.arg for a in fn.args.args if a.arg not in ('self', 'cls')]
         for a in declared:
             if a not in env and a not in sp.get('ignored_params', ()):
@@ -1017,13 +1371,13 @@ class Tr:
         self.rec_fuel = self.fresh('fuel') if sp.get('recursive') else None
 
         def fall(env1):
-            st = sp.get('state')
+            st = self.state_names()
             if sp.get('generator'):
                 return 'Ok %s' % env1['$yielded'][0]
             if isinstance(self.ret, tuple) and self.ret[0] == 'option':
-                return 'Ok (%s, None)' % env1[st][0] if st else 'Ok None'
+                return 'Ok (%s, None)' % self.state_value(env1) if st else 'Ok None'
             if self.ret == 'unit':
-                return 'Ok (%s, tt)' % env1[st][0] if st else 'Ok tt'
+                return 'Ok (%s, tt)' % self.state_value(env1) if st else 'Ok tt'
             raise Unsupported('control can fall off the end of the function')
         body = self.block(list(fn.body), env, fall)
         if sp.get('recursive'):
@@ -1060,7 +1414,45 @@ def find_function(tree, cls, func, nested_in=None, decorator=None):
     return fs[0]
 
 
+class _Rewrite(ast.NodeTransformer):
+    """aliases named by the spec (`rewrite`: {source text of an attribute path: source text that stands for it}; `self_is`:
+    what the object itself stands for where it is indexed or iterated over - its __getitem__ / __iter__ delegate there)"""
+
+    def __init__(self, spec):
+        self.paths = {k: ast.parse(v, mode='eval').body for k, v in spec.get('rewrite', {}).items()}
+        self.self_is = ast.parse(spec['self_is'], mode='eval').body if spec.get('self_is') else None
+
+    def visit_Attribute(self, node):
+        text = ast.unparse(node)
+        if text in self.paths and isinstance(node.ctx, ast.Load):
+            return ast.copy_location(self.paths[text], node)
+        return self.generic_visit(node)
+
+    def _self(self, node):
+        if self.self_is is not None and isinstance(node, ast.Name) and node.id == 'self':
+            return self.self_is
+        return node
+
+    def visit_Subscript(self, node):
+        node = self.generic_visit(node)
+        if isinstance(node.ctx, ast.Load):
+            node.value = self._self(node.value)
+        return node
+
+    def visit_comprehension(self, node):
+        node = self.generic_visit(node)
+        node.iter = self._self(node.iter)
+        return node
+
+    def visit_For(self, node):
+        node = self.generic_visit(node)
+        node.iter = self._self(node.iter)
+        return node
+
+
 def translate(source_text, spec, ops):
     tree = ast.parse(source_text)
     fn = find_function(tree, spec.get('cls'), spec['func'], spec.get('nested_in'), spec.get('decorator'))
+    if spec.get('rewrite') or spec.get('self_is'):
+        fn = ast.fix_missing_locations(_Rewrite(spec).visit(fn))
     return Tr(spec, ops).function(fn)
